@@ -96,6 +96,9 @@ func portInit() {
 		portCursor = (os.Getpid() * 37) % 400
 	} else {
 		portLo, portHi = base, base+600
+		// start at a pid-dependent offset so that two runs of the same property
+		// at the same time (not the normal use) rarely hand out the same ports
+		portCursor = (os.Getpid() * 53) % 600
 	}
 }
 
